@@ -309,7 +309,9 @@ func (g *G) lockTakenByEcal() bool {
 // that did not exist before the scenario (pre), every one that is executing
 // ECAL interpreter or scope code is parked in a lock acquisition, and there is
 // at least one. Goroutines waiting on anything else (a harness gate, a sleep,
-// a condition variable) make the predicate false. frame is the innermost
+// a condition variable) make the predicate false, and so does ANY goroutine of
+// the scenario - with or without interpreter frames - that is running,
+// runnable or in a system call in the same dump (it may be the lock holder). frame is the innermost
 // krotik/ecal frame of one of the parked goroutines.
 func LockStuck(pre map[uint64]bool) (stuck bool, frame string, parked int) {
 	stuck, frame, parked, _ = LockStuckStacks(pre)
@@ -318,9 +320,20 @@ func LockStuck(pre map[uint64]bool) (stuck bool, frame string, parked int) {
 
 // LockStuckStacks is LockStuck plus the stacks of the parked goroutines.
 func LockStuckStacks(pre map[uint64]bool) (stuck bool, frame string, parked int, stacks []string) {
+	self := sched.GoID()
 	for _, g := range Dump() {
-		if pre[g.ID] {
+		if pre[g.ID] || g.ID == self {
 			continue
+		}
+		// A lock somebody is parked on is held by SOME goroutine of the scenario,
+		// not necessarily one inside interpreter or scope code (a pool worker in
+		// getTask, the kicker inside ThreadPool.State()). As long as any of them
+		// can still take a step - on a processor, waiting for one, or inside a
+		// system call - the lock may be released in the next instant, however
+		// long the machine keeps that goroutine off the processor.
+		switch g.State {
+		case "running", "runnable", "syscall", "IO wait":
+			return false, "", 0, nil
 		}
 		i := g.FirstWith("github.com/krotik/ecal/interpreter.")
 		if j := g.FirstWith("github.com/krotik/ecal/scope."); j >= 0 && (i < 0 || j < i) {
